@@ -628,7 +628,7 @@ def _isotope_substitution(compound, source, target, portion=1):
     *portion* is the proportion of source which is substituted for target.
     """
     atoms = compound.atoms
-    if source in atoms:
+    if source in atoms and source is not target:
         mass = compound.mass
         mass_reduction = atoms[source]*portion*(source.mass - target.mass)
         density = compound.density
